@@ -268,7 +268,7 @@ namespace avel {
 
         #if defined(AVEL_AVX512VL) || defined(AVEL_AVX10_1)
         auto mask = b << N;
-        return mask8x32f{__mmask8((decay(m) & ~mask) | mask)};
+        return mask8x32f{__mmask8((decay(m) & ~(decltype(mask)(1) << N)) | mask)};
 
         #elif defined(AVEL_AVX)
         auto ret = _mm256_blend_ps(decay(m), _mm256_castsi256_ps(_mm256_set1_epi32(b ? -1 : 0)), 1 << N);
